@@ -71,7 +71,7 @@ Definition class_ranges (name : bytes) : option (list (N * N)) :=
   else if bytes_eqb name [108;111;119;101;114] then Some [(97, 122)]                       (* lower *)
   else if bytes_eqb name [112;114;105;110;116] then Some [(32, 126)]                       (* print *)
   else if bytes_eqb name [112;117;110;99;116] then Some [(33, 47); (58, 64); (91, 96); (123, 126)]  (* punct *)
-  else if bytes_eqb name [115;112;97;99;101] then Some [(32, 32); (9, 13)]                 (* space *)
+  else if bytes_eqb name [115;112;97;99;101] then Some [(32, 32); (9, 10); (13, 13)]       (* space: SP TAB LF CR (sane-ctype.h) *)
   else if bytes_eqb name [117;112;112;101;114] then Some [(65, 90)]                        (* upper *)
   else if bytes_eqb name [120;100;105;103;105;116] then Some [(48, 57); (97, 102); (65, 70)]  (* xdigit *)
   else None.
